@@ -1,6 +1,7 @@
 """Property -> rule groups. Each entry runs the rule instances that decide a clause of that
 property on the current tree; the explanation and the undecided clauses go to the evidence."""
-from .rules import form, split, shape, flag, valid, verify, cand, once
+from .rules import (form, split, shape, flag, valid, verify, cand, once, order, dt, missempty, effect, sides, wire,
+                    mask, conv, prof)
 
 def _g(ctx, fn, *a, **k):
     """run one rule group; a group that can no longer recognise the source is recorded (exit 2) without
@@ -19,60 +20,102 @@ SET_JOINS = ['cosine', 'dice', 'jaccard', 'overlap', 'overlap_coefficient']
 
 def c01(ctx):
     _g(ctx, form.run, SET4, 'safe')
+    _g(ctx, wire.run, rows=False, arrays=False)
     _g(ctx, cand.run, unique=False, provenance=False)
-    _g(ctx, once.run)
+    _g(ctx, once.run, extrema=True)
+    _g(ctx, order.run)
     _g(ctx, split.run)
+    _g(ctx, missempty.run, empty=False)
     _g(ctx, verify.run, kinds=['set', 'oc', 'count'], opmap=False, simtable=False)
 
 
 def c02(ctx):
     _g(ctx, verify.run, kinds=['set', 'oc', 'count'])
     _g(ctx, shape.run, builders=True, cross=False, ids=False)
+    _g(ctx, sides.run)
+    _g(ctx, wire.run, ordering=False, same=False, measure=True)
     _g(ctx, cand.run, slices=False, provenance=False, window=False, prune=False, consume=False)
+    _g(ctx, once.run, which=['row_id'], caches=True)
+    _g(ctx, split.run)
 
 
 def c03(ctx):
     _g(ctx, form.run, ['EDIT_DISTANCE'], 'safe')
     _g(ctx, flag.run, joins=['edit_distance'], f4=False)
     _g(ctx, verify.run, kinds=['edit'], window=True)
+    _g(ctx, wire.run, rows=False, arrays=False)
     _g(ctx, cand.run, window=False, prune=False, consume=False)
+    _g(ctx, once.run, which=['row_id', 'order_idx', 'table_index'])
+    _g(ctx, order.run)
 
 
 def c04(ctx):
     _g(ctx, form.run, ALL5, 'safe')
+    _g(ctx, dt.run, pairs=True)
     _g(ctx, cand.run)
-    _g(ctx, once.run)
+    _g(ctx, order.run)
+    _g(ctx, mask.run, candset=True)
+    _g(ctx, once.run, extrema=True, pairpos=True, appends=True)
 
 
 def c05(ctx):
     _g(ctx, verify.run, kinds=['matcher'], simtable=False)
+    _g(ctx, mask.run, candset=False, matcher=True)
     _g(ctx, shape.run, builders=True, cross=False, ids=False)
+    _g(ctx, sides.run)
     _g(ctx, split.run)
     _g(ctx, once.run, which=[], appends=True)
+    _g(ctx, missempty.run, empty=False)
+    _g(ctx, effect.run, globals_=False, labels=True)
 
 
 def c06(ctx):
+    _g(ctx, mask.run, candset=True)
+    _g(ctx, dt.run, pairs=True)
     _g(ctx, verify.run, kinds=['count'], simtable=False)
     _g(ctx, cand.run, slices=False, window=False, prune=False, consume=False)
     _g(ctx, split.run)
-    _g(ctx, once.run, which=['InvertedIndex.build'], appends=True)
+    _g(ctx, once.run, which=['InvertedIndex.build'], appends=True, caches=True)
+    _g(ctx, sides.run)
 
 
 def c08(ctx):
+    _g(ctx, missempty.run, empty=False)
     _g(ctx, shape.run, builders=True, cross=True, ids=False)
+    _g(ctx, dt.run, pairs=True)
+    _g(ctx, verify.run, kinds=['matcher'], opmap=False, simtable=False)
+    _g(ctx, split.run, table=False)
+
+
+def c09(ctx):
+    _g(ctx, missempty.run, miss=False)
+    _g(ctx, dt.run, pairs=True)
+    _g(ctx, wire.run, ordering=False, rows=True, arrays=False, measure=False)
+    _g(ctx, once.run, which=['row_id'], caches=True)
+    _g(ctx, verify.run, kinds=['set', 'oc'], opmap=False, simtable=False)
+    _g(ctx, shape.run, builders=True, cross=False, ids=False)
+    _g(ctx, split.run, table=False)
 
 
 def c10(ctx):
     _g(ctx, split.run)
     _g(ctx, shape.run, builders=False, cross=False, ids=True)
+    _g(ctx, order.run)
+    _g(ctx, effect.run, mutations=False, globals_=True, labels=True)
+    _g(ctx, wire.run, ordering=True, same=False, rows=False, arrays=True, measure=False)
 
 
 def c11(ctx):
     _g(ctx, shape.run)
+    _g(ctx, wire.run, ordering=False, same=False, rows=True, arrays=True, measure=False)
+    _g(ctx, sides.run)
+    _g(ctx, dt.run, pairs=False, helpers=True)
+    _g(ctx, missempty.run, empty=False)
 
 
 def c12(ctx):
     _g(ctx, flag.run)
+    _g(ctx, effect.run)
 
 
 def c13(ctx):
@@ -82,13 +125,31 @@ def c13(ctx):
 
 def c14(ctx):
     _g(ctx, form.run, ['COSINE', 'DICE', 'JACCARD', 'EDIT_DISTANCE'], 'tight',
-             funcs=['get_size_lower_bound', 'get_size_upper_bound'])
+       funcs=['get_size_lower_bound', 'get_size_upper_bound'])
+    _g(ctx, dt.run, pairs=True)
     _g(ctx, cand.run, slices=True, unique=False, provenance=True, window=True, prune=True, consume=False)
 
 
 def c15(ctx):
     _g(ctx, valid.run)
     _g(ctx, flag.run, f4=False)
+    _g(ctx, dt.run, pairs=False, validators=True, num_procs=True)
+    _g(ctx, conv.run, gate=True, converter=False)
+    _g(ctx, prof.check_div)
+    _g(ctx, sides.run)
+    _g(ctx, split.run, table=False)
+    _g(ctx, effect.run, globals_=False, labels=False)
+
+
+def c16(ctx):
+    _g(ctx, conv.run, gate=False, converter=True)
+    _g(ctx, effect.run, globals_=False, labels=False)
+
+
+def c17(ctx):
+    _g(ctx, prof.run, div=True)
+    _g(ctx, once.run, which=[], appends=True)
+    _g(ctx, valid.run, only=['profile_table_for_join'])
 
 
 PROPS = {
@@ -106,6 +167,8 @@ PROPS = {
                  'exactly one mask entry per candidate row.'),
     'C08': (c08, 'Missing values: rows with a missing join value are dropped before indexing, missing pairs are '
                  'generated once with the header layout (NaN score), filter_pair/matcher test isnull first.'),
+    'C09': (c09, 'Empty token sets: the empty branch runs exactly under allow_empty and no right tokens, pairs the row '
+                 'with the empty left rows the index recorded under that same flag (score 1.0), and nothing else emits them.'),
     'C10': (c10, 'Serial and parallel twins do the same per-row work on a contiguous partition of the probe side; '
                  '_id is numbered once at the end.'),
     'C11': (c11, 'Every emitted row has exactly the header layout, each cell read from the row and column the '
@@ -117,6 +180,10 @@ PROPS = {
     'C14': (c14, 'Size bounds are not looser than the reference; candidates arise only from shared tokens.'),
     'C15': (c15, 'Documented precondition checks are present, unconditional, before any work, on the right '
                  'argument; no validation failure escapes while the tokenizer mode is switched.'),
+    'C16': (c16, 'Converters: dtype dispatch over a finite kind domain, NaN-preserving element mapping, return kinds per '
+                 'mode, mutation only under inplace, no lost update.'),
+    'C17': (c17, 'Profiler: counts derive from unique()/isnull() of the profiled column, comment predicates depend on the '
+                 'exact counts only, one row per attribute.'),
 }
 
 UNDECIDED = {
@@ -129,12 +196,15 @@ UNDECIDED = {
     'C05': ['pandas itertuples/zip semantics (trusted)', 'what sim_function returns'],
     'C06': ['that counting postings equals set overlap for bag tokenizers (excluded by the property)'],
     'C08': ['pandas isnull/dropna semantics (trusted)'],
+    'C09': ['what a tokenizer returns for delimiter-only strings (py_stringmatching, trusted)'],
     'C10': ['invariance under row permutation as such', 'joblib scheduling'],
     'C11': ['pandas DataFrame construction semantics (trusted)'],
     'C12': ['mutation through objects the analysis cannot type (opaque third-party calls)'],
     'C13': ['transposition and threshold refinement are covered only through C01/C02 prerequisites'],
     'C14': ['that the reference bounds are the tightest possible (arithmetic fact, not structural)'],
     'C15': ['general crash-freedom of every valid call (termination/exception freedom is not structural)'],
+    'C16': ['the textual form str() gives a float', 'pandas astype/apply semantics (trusted)'],
+    'C17': ['pandas unique()/isnull() semantics (trusted)'],
 }
 
 _T = ('Static necessary-condition analysis: the named structural clauses are decided for all inputs at once from '
@@ -149,13 +219,18 @@ TECHNIQUE = {
     'C05': 'static analysis: path enumeration of the matcher loop body with symbolic substitution; row layouts',
     'C06': 'static analysis: comparator-guard path analysis of OverlapFilter; once-per-row mask append; provenance',
     'C08': 'static analysis: row-layout abstract interpretation incl. missing-value handler and cross-frame headers',
+    'C09': 'static analysis: path conditions of the empty branch compared as Boolean functions; provenance of the '
+           'empty-record list; decision tables of filter_pair',
     'C10': 'static analysis: twin-call argument comparison, symbolic contiguity of split_table, CFG dominance of _id',
     'C11': 'static analysis: row-layout abstract interpretation (cells aligned with header cells by side/attribute)',
     'C12': 'static analysis: typestate abstract interpretation of the tokenizer flag over the CFG + '
            'interprocedural raise-guard refutation',
     'C13': 'static analysis: non-interference of comp_op with pruning + formula normal forms (ast)',
     'C14': 'static analysis: formula normal forms (tight side) + candidate provenance (ast)',
-    'C15': 'static analysis: obligation table vs resolved validator calls, path conditions, CFG dominance',
+    'C15': 'static analysis: obligation table vs resolved validator calls, path conditions, CFG dominance, dtype-kind '
+           'abstract domain, validator decision tables',
+    'C16': 'static analysis: abstract interpretation over dtype kinds, decision tables, lost-update and ownership rules',
+    'C17': 'static analysis: provenance of the reported counts, taint from round() to branch tests, decision tables',
 }
 _NYB = 'check not built yet in this phase (planned, see DESIGN.md section 5)'
 NOT_APPLICABLE = {
